@@ -229,6 +229,129 @@ Proof.
 Qed.
 
 (* ------------------------------------------------------------------------------------- *)
+(** * Validity of elements ([forallb okb], typically [bytes_ok]) through the helpers *)
+
+Lemma forallb_true {A} (l : list A) : forallb (fun _ => true) l = true.
+Proof. induction l as [|x l IH]; [reflexivity | exact IH]. Qed.
+
+Lemma forallb_firstn {A} (f : A -> bool) n l :
+  forallb f l = true -> forallb f (firstn n l) = true.
+Proof.
+  revert l; induction n as [|n IH]; intros [|x l] H; cbn [firstn forallb] in *; try reflexivity.
+  apply andb_true_iff in H as [Hx Hl]. now rewrite Hx, IH.
+Qed.
+
+Lemma forallb_skipn {A} (f : A -> bool) n l :
+  forallb f l = true -> forallb f (skipn n l) = true.
+Proof.
+  revert l; induction n as [|n IH]; intros [|x l] H; cbn [skipn forallb] in *; try assumption.
+  apply andb_true_iff in H as [Hx Hl]. now apply IH.
+Qed.
+
+Lemma forallb_concat {A} (f : A -> bool) bs :
+  Forall (fun b => forallb f b = true) bs -> forallb f (concat bs) = true.
+Proof.
+  induction 1 as [|b bs Hb Hall IH]; cbn [concat]; [reflexivity|].
+  rewrite forallb_app, Hb, IH. reflexivity.
+Qed.
+
+Lemma forallb_chunks_fuel {A} (f : A -> bool) fuel k l :
+  forallb f l = true -> Forall (fun b => forallb f b = true) (chunks_fuel fuel k l).
+Proof.
+  revert l; induction fuel as [|fu IH]; intros l H; cbn [chunks_fuel]; [constructor|].
+  destruct l as [|x l]; constructor.
+  - now apply forallb_firstn.
+  - apply IH. now apply forallb_skipn.
+Qed.
+
+Lemma forallb_chunks {A} (f : A -> bool) k l :
+  forallb f l = true -> Forall (fun b => forallb f b = true) (chunks k l).
+Proof. apply forallb_chunks_fuel. Qed.
+
+Lemma forallb_xor_bytes (okb : N -> bool) a b :
+  (forall x y, okb x = true -> okb y = true -> okb (N.lxor x y) = true) ->
+  forallb okb a = true -> forallb okb b = true -> forallb okb (xor_bytes a b) = true.
+Proof.
+  intro Hxor; revert b; induction a as [|x a IH]; intros [|y b] Ha Hb;
+    cbn [xor_bytes forallb] in *; try reflexivity.
+  apply andb_true_iff in Ha as [Hx Ha]. apply andb_true_iff in Hb as [Hy Hb].
+  now rewrite Hxor, IH.
+Qed.
+
+Lemma byte_ok_lxor x y : byte_ok x = true -> byte_ok y = true -> byte_ok (N.lxor x y) = true.
+Proof.
+  unfold byte_ok. rewrite !N.ltb_lt. intros Hx Hy.
+  destruct (N.eq_dec x 0) as [->|Hx0]; [now rewrite N.lxor_0_l|].
+  destruct (N.eq_dec y 0) as [->|Hy0]; [now rewrite N.lxor_0_r|].
+  destruct (N.eq_dec (N.lxor x y) 0) as [->|Hz0]; [reflexivity|].
+  change 256%N with (2 ^ 8)%N in *.
+  apply N.log2_lt_pow2 in Hx; [|lia]. apply N.log2_lt_pow2 in Hy; [|lia].
+  apply N.log2_lt_pow2; [lia|].
+  pose proof (N.log2_lxor x y) as Hl. lia.
+Qed.
+
+Lemma byte_at_ok n s : byte_ok (byte_at n s) = true.
+Proof.
+  unfold byte_ok, byte_at. apply N.ltb_lt.
+  change 255%N with (N.ones 8). rewrite N.land_ones. apply N.mod_lt. discriminate.
+Qed.
+
+Lemma be64_ok n : bytes_ok (be64 n) = true.
+Proof. unfold be64, bytes_ok. cbn [forallb]. now rewrite !byte_at_ok. Qed.
+
+Lemma N_of_int_bits_lt k i : (N_of_int_bits k i < 2 ^ N.of_nat k)%N.
+Proof.
+  revert i; induction k as [|k IH]; intro i; cbn [N_of_int_bits].
+  - cbn. lia.
+  - specialize (IH (i >> 1)%uint63).
+    rewrite Nat2N.inj_succ, N.pow_succ_r'.
+    destruct (Uint63.is_even i); [rewrite N.double_spec | rewrite N.succ_double_spec]; lia.
+Qed.
+
+Lemma bytes_of_ints_ok xs : bytes_ok (bytes_of_ints xs) = true.
+Proof.
+  unfold bytes_ok, bytes_of_ints. induction xs as [|x xs IH]; cbn [map forallb]; [reflexivity|].
+  rewrite IH, andb_true_r. apply N.ltb_lt. apply (N_of_int_bits_lt 8 x).
+Qed.
+
+(* A toy "block cipher" used only for the non-vacuity examples of the CBC and KW theorems:
+   reduce every element to a byte and pad/cut to 16; it is its own inverse on 16-byte
+   blocks. *)
+Definition toy_block (b : list N) : list N := take_pad 16 (map (fun x => N.land x 255) b).
+
+Lemma toy_block_length b : length (toy_block b) = 16.
+Proof. apply take_pad_length. Qed.
+
+Lemma take_pad_ok n l : bytes_ok l = true -> bytes_ok (take_pad n l) = true.
+Proof.
+  unfold bytes_ok. revert l; induction n as [|n IH]; intros [|x l] H;
+    cbn [take_pad forallb] in *; try reflexivity.
+  - now rewrite IH.
+  - apply andb_true_iff in H as [Hx Hl]. now rewrite Hx, IH.
+Qed.
+
+Lemma toy_block_ok b : bytes_ok (toy_block b) = true.
+Proof.
+  apply take_pad_ok. unfold bytes_ok. induction b as [|x b IH]; cbn [map forallb]; [reflexivity|].
+  rewrite IH, andb_true_r. apply (byte_at_ok x 0).
+Qed.
+
+Lemma toy_block_involutive b :
+  length b = 16 -> bytes_ok b = true -> toy_block (toy_block b) = b.
+Proof.
+  intros Hlen Hok.
+  assert (Hid : toy_block b = b).
+  { unfold toy_block. rewrite <- Hlen, <- (map_length (fun x => N.land x 255) b).
+    rewrite take_pad_exact. clear Hlen.
+    induction b as [|x b IH]; cbn [map]; [reflexivity|].
+    cbn [bytes_ok forallb] in Hok. apply andb_true_iff in Hok as [Hx Hb].
+    rewrite IH by exact Hb. f_equal.
+    unfold byte_ok in Hx. apply N.ltb_lt in Hx.
+    change 255%N with (N.ones 8). rewrite N.land_ones. now apply N.mod_small. }
+  now rewrite !Hid.
+Qed.
+
+(* ------------------------------------------------------------------------------------- *)
 (** * A 16-slot register file, used for the ChaCha20 state (16 words) and the AES state
       (16 bytes, column-major).  Being an inductive with a single constructor, the length
       of its list view is known without evaluating anything. *)
